@@ -23,34 +23,34 @@ func moreProps(m map[string]*propCfg) {
 		}
 		m[p.ID] = p
 	}
-	add(&propCfg{ID: "C03", Engine: "startsim", Level: "exploration", Families: []famShare{{gen.FamSubst, 0.9}, {gen.FamWrapName, 0.1}}, QProgs: 400, QK: 10, TProgs: 480, TK: 48,
+	add(&propCfg{ID: "C03", Engine: "startsim", Level: "exploration", Families: []famShare{{gen.FamSubst, 0.9}, {gen.FamWrapName, 0.1}}, QProgs: 520, QK: 10, TProgs: 480, TK: 48,
 		Rule: "generated cyclic and acyclic programs with a wrap plan (per substituted component: early only, before-init only, after-init only, before-instantiation, early+after with the same or with different substitutes; 1-2 substituting processors of all order classes); K schedules each. Non-trivial = a substitute was actually returned by a callback in that run; distinct = distinct (program shape, registry path signature)."})
-	add(&propCfg{ID: "C05", Engine: "startsim", Level: "exploration", Families: []famShare{{gen.FamLife, 0.65}, {gen.FamWire, 0.2}, {gen.FamSubst, 0.15}}, QProgs: 400, QK: 8, TProgs: 480, TK: 48,
+	add(&propCfg{ID: "C05", Engine: "startsim", Level: "exploration", Families: []famShare{{gen.FamLife, 0.65}, {gen.FamWire, 0.2}, {gen.FamSubst, 0.15}}, QProgs: 520, QK: 8, TProgs: 480, TK: 48,
 		Rule: "generated DAGs / diamonds / cycles with tails, lazy-eager mixes, 1-4 observing post-processors of all classes and order classes, runners; K schedules each. Non-trivial = at least two Init events in the run; distinct = distinct (program shape, registry path signature)."})
-	add(&propCfg{ID: "C12", Engine: "startsim", Level: "exploration", Families: []famShare{{gen.FamLife, 0.7}, {gen.FamCfgMerge, 0.3}}, QProgs: 400, QK: 8, TProgs: 480, TK: 48,
+	add(&propCfg{ID: "C12", Engine: "startsim", Level: "exploration", Families: []famShare{{gen.FamLife, 0.7}, {gen.FamCfgMerge, 0.3}}, QProgs: 480, QK: 8, TProgs: 480, TK: 48,
 		Rule: "generated programs with post-processors, runners (and simulated loaders) of all three order classes with Order values incl. ties, negatives and extremes; arrival order at the sorter permuted by the schedule; plus direct calls of the sorter on generated multisets. Non-trivial = >= 2 participants of one kind; distinct = distinct (program shape, registry path signature)."})
-	add(&propCfg{ID: "C13", Engine: "startsim", Level: "fault_enumeration", Families: []famShare{{gen.FamLife, 1}}, QProgs: 400, QK: 6, TProgs: 480, TK: 32,
+	add(&propCfg{ID: "C13", Engine: "startsim", Level: "fault_enumeration", Families: []famShare{{gen.FamLife, 1}}, QProgs: 480, QK: 6, TProgs: 480, TK: 32,
 		Rule: "generated programs with 0-6 runners; K fault-free schedules; on the first three, every runner in turn is made to fail (exhaustive per explored schedule). Non-trivial = at least one runner ran; distinct = distinct (program shape, registry path signature, fault set)."})
-	add(&propCfg{ID: "C14", Engine: "startsim", Level: "exploration", Families: []famShare{{gen.FamClose, 1}}, QProgs: 320, QK: 12, TProgs: 480, TK: 64,
+	add(&propCfg{ID: "C14", Engine: "startsim", Level: "exploration", Families: []famShare{{gen.FamClose, 1}}, QProgs: 400, QK: 12, TProgs: 480, TK: 64,
 		Rule:      "generated programs with 0-12 closers (eager, lazy, named, unnamed); after a successful Run, App.Close runs inside the bubble; every closer parks inside its Close(); the scheduler releases them one at a time in a seed-chosen order, a seed-chosen subset returns errors; invariants are evaluated at every quiescent point. Non-trivial = at least two quiescent points during Close (>= 1 closer parked); distinct = distinct (program shape, release order / fault set hash).",
 		Technique: "deterministic simulation (closesim): App.Close inside a testing/synctest bubble, closers parked in their own callback and released in a seeded order; invariants at every quiescent point (bounded liveness without wall clock)"})
 	add(&propCfg{ID: "C20", Engine: "racesim+linsim", Level: "exploration", Families: []famShare{{gen.FamRace, 1}}, QProgs: 24, QK: 6, TProgs: 64, TK: 12,
 		Rule:      "two engines. racesim: programs with 8-60 components and 1-3 custom tag scanners (N x P scanner goroutines) and closers are started and closed under the Go race detector with the scheduler in parallel mode (tasks are released in waves, harness callbacks do no synchronisation between release and return); in half of the runs several scanner invocations fail in the same round, in the other half a subset of closers fails. linsim: util/sync2.Map, util/list.ConcurrentSets and gcset are compiled from a scratch copy with a yield point before every statement; 2-4 clients issue 2-6 operations each over 1-3 keys with unique values, exactly one client runs at a time and the seeded Chooser decides who continues at every yield; histories are checked with porcupine against a sequential map / set, once with Range as one step and once with Range interleavable. Non-trivial = a racesim run with >= 2 tasks released together, or a linsim history in which operations of different clients overlap; distinct = distinct histories / (program shape, fault set).",
 		Technique: "deterministic simulation: (racesim) real-parallel release of parked scanner / closer goroutines under the Go race detector (happens-before oracle); (linsim) cooperative single-runner scheduling at AST-inserted yield points + porcupine linearizability check against a sequential model"})
-	add(&propCfg{ID: "C11", Engine: "startsim", Level: "exploration", Families: []famShare{{gen.FamEmbed, 1}}, QProgs: 400, QK: 5, TProgs: 480, TK: 24,
+	add(&propCfg{ID: "C11", Engine: "startsim", Level: "exploration", Families: []famShare{{gen.FamEmbed, 1}}, QProgs: 480, QK: 5, TProgs: 480, TK: 24,
 		Rule:      "twin programs: a flat program (wire / func / value / prop / prefix / custom-tagged fields declared directly) and its re-arrangement with the same fields inside anonymous, untagged, by-value embedded structs (depth 1-3, exported and unexported carriers); frame fields of every kind (untagged, unexported-but-tagged, foreign-tagged, inside a named struct field, inside a tagged embedded struct, inside an embedded pointer) carrying sentinels; 0-2 custom tag scanners that park inside the parallel scanning phase. Both twins run under the same picks. Non-trivial = the program has embedded points, frame or custom-tagged fields; distinct = distinct (program shape, registry path signature).",
 		Technique: "deterministic simulation (startsim): twin programs under identical schedules, custom scanners interleaved inside the parallel scanning phase; oracle: twin equivalence + frame sentinels + recording tag processor"})
-	add(&propCfg{ID: "C15", Engine: "startsim", Level: "exploration", Families: []famShare{{gen.FamCfgMerge, 0.8}, {gen.FamConfig, 0.2}}, QProgs: 480, QK: 5, TProgs: 480, TK: 24,
+	add(&propCfg{ID: "C15", Engine: "startsim", Level: "exploration", Families: []famShare{{gen.FamCfgMerge, 0.8}, {gen.FamConfig, 0.2}}, QProgs: 640, QK: 5, TProgs: 480, TK: 24,
 		Rule:      "generated configurations: 1-4 sources (raw documents, real FileLoader on files in the run's scratch directory, real ArgsLoader over a simulated argv, simulated loaders of all order classes) with overlapping and disjoint key trees, added through SetConfigLoader / AddConfigLoader / SetConfig / AddLoaders in a generated order; rare source faults (missing file, directory, garbage, loader error, empty). Non-trivial = >= 2 active fault-free sources; distinct = distinct (program shape, registry path signature).",
 		Technique: "deterministic simulation (startsim, configuration slice): real loaders and binder under generated source sets and option sequences, injected source faults; oracle: reference deep merge in contract order"})
-	add(&propCfg{ID: "C18", Engine: "startsim", Level: "exploration", Families: []famShare{{gen.FamConfig, 1}}, QProgs: 480, QK: 8, TProgs: 480, TK: 32,
+	add(&propCfg{ID: "C18", Engine: "startsim", Level: "exploration", Families: []famShare{{gen.FamConfig, 1}}, QProgs: 720, QK: 8, TProgs: 480, TK: 32,
 		Rule:      "generated components with configuration fields from a fixed menu (placeholder, placeholder with default, prop shorthand, #{${a}+${b}}, #{${a}*${b}}, prefix-bound int/struct, literal), each optionally with a validate constraint from a fixed menu, next to user instantiation-aware processors of all order classes; the arrival order of all processors at the unstable sorter is permuted by the schedule. Non-trivial = the program has an expression or a validated field; distinct = distinct (program shape, registry path signature).",
 		Assumes:   []string{"the value x constraint space is the menu's (small integers, identifiers, min/max/gte/required/eq/ne); the biconditional over arbitrary values and expressions is input generation, outside this technique"},
 		Technique: "deterministic simulation (startsim, configuration slice): schedule permutes the arrival order of built-in and user processors at the sorter; oracle: small menu evaluator (placeholder -> expression -> bind -> validate)"})
-	add(&propCfg{ID: "C09", Engine: "startsim", Level: "fault_enumeration", Families: []famShare{{gen.FamWire, 0.22}, {gen.FamLife, 0.25}, {gen.FamConfig, 0.2}, {gen.FamCfgMerge, 0.1}, {gen.FamEmbed, 0.08}, {gen.FamWrapName, 0.05}, {gen.FamSubst, 0.1}}, QProgs: 240, QK: 3, TProgs: 400, TK: 4,
+	add(&propCfg{ID: "C09", Engine: "startsim", Level: "fault_enumeration", Families: []famShare{{gen.FamWire, 0.22}, {gen.FamLife, 0.25}, {gen.FamConfig, 0.2}, {gen.FamCfgMerge, 0.1}, {gen.FamEmbed, 0.08}, {gen.FamWrapName, 0.05}, {gen.FamSubst, 0.1}}, QProgs: 300, QK: 3, TProgs: 400, TK: 4,
 		Params: map[string]float64{"faultSchedules": 2, "faultPairs": 4}, TParams: map[string]float64{"faultSchedules": 3, "faultPairs": 12},
 		Rule: "per program and per explored schedule every callback site discovered by the fault-free run (Init, AfterPropertiesSet, each post-processor callback for each component incl. the container's own, runners excluded) is made to fail singly (exhaustive), plus sampled pairs; programs with unsatisfiable required / optional points are judged by the start-outcome model. Non-trivial = a fault fired or the model says must-fail; distinct = distinct (program shape, registry path signature, fault set)."})
-	add(&propCfg{ID: "C04", Engine: "startsim", Level: "fault_enumeration", Families: []famShare{{gen.FamWire, 0.45}, {gen.FamLife, 0.35}, {gen.FamSubst, 0.2}}, QProgs: 160, QK: 3, TProgs: 300, TK: 4,
+	add(&propCfg{ID: "C04", Engine: "startsim", Level: "fault_enumeration", Families: []famShare{{gen.FamWire, 0.45}, {gen.FamLife, 0.35}, {gen.FamSubst, 0.2}}, QProgs: 200, QK: 3, TProgs: 300, TK: 4,
 		Params: map[string]float64{"faultSchedules": 2}, TParams: map[string]float64{"faultSchedules": 3},
 		Rule: "three sources of histories: (1) regsim - generated creation trees driven directly against the real singleton cache, every failure position enumerated, continuation after the failure; (2) the tracer on real starts, fault-free and with every discovered callback site failing (transient and permanent); (3) GetComponentByName for every component on the same App after each failed start. Checked call by call against the reference state machine. Non-trivial = an early reference was produced or a fault fired; distinct = distinct (program shape / tree, path signature, fault set)."})
 }
